@@ -223,6 +223,7 @@ func Run(t *testing.T, opt Options, body func()) (res Result) {
 		os.Exit(2)
 	})
 	defer wd.Stop()
+	defer simrt.AfterRun()
 	defer func() {
 		if r := recover(); r != nil {
 			s := fmt.Sprint(r)
